@@ -110,6 +110,14 @@ def run_mutant(m, baseline_keys, verbose=False):
         th = getattr(ctx, 'F', None) and ctx.F.tree_hash if 'ctx' in dir() else None
         if th:
             shutil.rmtree(os.path.join(facts.CACHE, 'facts', th), ignore_errors=True)
+        # release the fact base and the analyses of the scratch tree (hundreds of variants would otherwise accumulate)
+        from . import core
+        for k in [k for k, f in facts._FACTS.items() if th and getattr(f, 'tree_hash', None) == th]:
+            del facts._FACTS[k]
+        core._AN.clear()
+        core._F[0] = None
+        import gc
+        gc.collect()
     res['wall_s'] = round(time.time() - t0, 1)
     return res
 
